@@ -7,7 +7,8 @@ PROPS = {
         "runs": {
             "quick": [{"harness": "offsetpoly", "args": ["--k", 6, "--nmax", 4]},
                       {"harness": "offsetpoly", "args": ["--family", "curves"]},
-                      {"harness": "offsetpoly", "args": ["--family", "ortho", "--nmax", 10]}],
+                      {"harness": "offsetpoly", "args": ["--family", "ortho", "--nmax", 10]},
+                      {"harness": "offsetpoly", "args": ["--family", "ortho", "--nmax", 8, "--ra", 4, "--rb", 3]}],
             "thorough": [{"harness": "offsetpoly", "args": ["--k", 6, "--nmax", 5]},
                          {"harness": "offsetpoly", "args": ["--k", 7, "--nmax", 4, "--holes", 0]},
                          {"harness": "offsetpoly", "args": ["--family", "curves"]},
